@@ -7,6 +7,7 @@ import re
 import shutil
 import time
 
+import cyast
 import cygen
 import vlib
 from vlib import ToolError, log
@@ -35,13 +36,14 @@ def universes():
     return res
 
 
-KIND_PROP = {"truth3": "C23", "cmp": "C23", "arith": "C23", "order": "C20", "agg": "C21", "err": "C22", "part": "C19"}
+KIND_PROP = {"read": "C11", "truth3": "C23", "cmp": "C23", "arith": "C23", "order": "C20", "agg": "C21", "err": "C22", "part": "C19"}
 
 
 def cypher_sessions(tier, seed, u):
     ss = [cygen.laws_session(u, tier, seed), cygen.order_session(u, tier, seed * 7 + 1),
           cygen.agg_session(u, tier, seed * 11 + 2), cygen.err_session(tier, seed * 13 + 3)]
     ss += cygen.part_sessions(tier, seed * 17 + 4)
+    ss += cyast.read_sessions(tier, seed * 19 + 5)
     return ss
 
 
@@ -50,7 +52,8 @@ def corrupt_for_selftest(lines):
     out, done = [], set()
     for line in lines:
         e = json.loads(line)
-        if e.get("ev") == "case" and e["kind"] not in done and e["res"]["out"] == "rows" and e["res"]["rows"]:
+        if e.get("ev") == "case" and e["kind"] not in ("part", "err") and e["kind"] not in done \
+                and e["res"]["out"] == "rows" and e["res"]["rows"]:
             k = e["kind"]
             rows = e["res"]["rows"]
             if k == "truth3":
@@ -65,6 +68,8 @@ def corrupt_for_selftest(lines):
                     continue
             elif k == "agg":
                 rows[0][1] = ["int", {"s": 1, "m": [77]}]
+            elif k == "read":
+                rows.append(rows[0])
             else:
                 out.append(line)
                 continue
@@ -104,13 +109,26 @@ def cypher_family(tier, seed, sessions=None, tag="main"):
     shutil.rmtree(os.path.join(cd, "scratch"), ignore_errors=True)
     findings, info = vlib.tlc_trace("CypherTrace", tp, "cytrace-" + tag + "-" + tier)
     lines = open(tp).read().splitlines()
-    census, errs = {}, {}
+    census, errs, nrows, nonempty = {}, {}, {}, {}
     for line in lines:
         e = json.loads(line)
         if e["ev"] == "case":
-            census[e["kind"]] = census.get(e["kind"], 0) + 1
+            k = e["kind"]
+            census[k] = census.get(k, 0) + 1
             if e["res"]["out"] != "rows":
-                errs[e["kind"]] = errs.get(e["kind"], 0) + 1
+                errs[k] = errs.get(k, 0) + 1
+            rows = e["res"]["rows"]
+            if k == "part":
+                rows = e["resq"][0]["canon"] if e["resq"][0]["out"] == "rows" else []
+                # non-trivial: both the predicate and its negation keep some row
+                if all(r["out"] == "rows" for r in e["resq"]) and e["resq"][1]["canon"] and e["resq"][2]["canon"]:
+                    nonempty[k] = nonempty.get(k, 0) + 1
+            elif k == "err":
+                if e["res"]["out"] == "err":
+                    nonempty[k] = nonempty.get(k, 0) + 1
+            elif rows:
+                nonempty[k] = nonempty.get(k, 0) + 1
+            nrows[k] = nrows.get(k, 0) + len(rows)
     for f in findings:
         e = json.loads(lines[f["at"] - 1])
         f["query"] = e.get("query")
@@ -128,7 +146,8 @@ def cypher_family(tier, seed, sessions=None, tag="main"):
             raise ToolError("binding self-test failed: corrupted observations accepted for %s" % sorted(missing))
         selftest = {"ran": True, "kinds_corrupted": sorted(done), "new_findings_on_corrupted_trace": len(sf) - len(findings)}
     res = {"tier": tier, "seed": seed, "trace": tp, "sessions_file": sp, "stats": stats, "tlc": info,
-           "findings": findings, "census": census, "errors_by_kind": errs, "selftest": selftest,
+           "findings": findings, "census": census, "errors_by_kind": errs, "rows_by_kind": nrows,
+           "nontrivial_by_kind": nonempty, "selftest": selftest,
            "laws": {k: uni[k] for k in uni if k != "universes"},
            "universe_sizes": {k: len(v) for k, v in uni["universes"].items()},
            "wall_s": time.time() - t0}
@@ -142,7 +161,7 @@ def find_case(sessions_file, sid, cid):
         if s["id"] == sid:
             for c in s["cases"]:
                 if c["cid"] == cid:
-                    return {"id": s["id"], "setup": s.get("setup", []), "cases": [c]}
+                    return {"id": s["id"], "setup": s.get("setup", []), "dump": s.get("dump", False), "cases": [c]}
     return None
 
 
@@ -163,8 +182,10 @@ def cy_prop(prop, tier, seed, replay, kinds, note, rule):
             if c["kind"] in kinds and len(samples) < 3 and len(json.dumps(c)) < 4000:
                 samples.append({"query": c["query"], "params": c.get("params"), "meta": c.get("meta")})
     cov = {"traces_validated_against_impl": evals, "evaluations": evals,
-           "distinct_nontrivial": evals - sum(fam["errors_by_kind"].get(k, 0) for k in kinds if k != "err"),
-           "rule": rule, "states": fam["tlc"].get("distinct", 0), "transitions": fam["tlc"].get("states_generated", 0),
+           "distinct_nontrivial": sum(fam["nontrivial_by_kind"].get(k, 0) for k in kinds),
+           "rows_judged": sum(fam["rows_by_kind"].get(k, 0) for k in kinds),
+           "rule": rule + "; non-trivial = the engine answered with at least one row (part: both p and NOT p keep a row; "
+                          "err: the engine raised)", "states": fam["tlc"].get("distinct", 0), "transitions": fam["tlc"].get("states_generated", 0),
            "case_census": fam["census"], "cases_answered_with_error": fam["errors_by_kind"],
            "oracle_laws_checked_by_tlc": fam["laws"], "universe_sizes": fam["universe_sizes"],
            "harness_stats": fam["stats"], "binding_selftest": fam["selftest"], "samples": samples,
@@ -214,3 +235,14 @@ def c19(tier, seed, replay):
                    "predicates that raise in every variant are outside the claim",
                    "predicate pool x MATCH / OPTIONAL MATCH+WITH / UNWIND bases on two graphs, with and without property "
                    "indexes; bag identity rows(p)+rows(NOT p)+rows(p IS NULL)=rows() on the observed rows")
+
+
+@reg("C11")
+def c11(tier, seed, replay):
+    return cy_prop("C11", tier, seed, replay, ["read"],
+                   "fragment: MATCH / OPTIONAL MATCH chains of <= 2 hops with labels, types, directions, *lo..hi, inline "
+                   "properties; WHERE over comparisons / boolean logic / IS NULL / IN / labels; WITH, UNWIND, DISTINCT, "
+                   "count/collect/min/max/sum, ORDER BY, SKIP, LIMIT.  The reference runs on the graph as dumped through the "
+                   "storage read API (whose agreement with the abstract graph is C06)",
+                   "seeded random graphs (plain, parallel relationships, self loops, compacted, layered over a segment) x "
+                   "seeded random well-scoped queries; rows compared as a bag, or as an order-respecting slice under ORDER BY")
